@@ -13,7 +13,8 @@
 From Coq Require Import List Bool Arith ZArith String.
 From TC.Lib Require Import Conc.
 From TC.Model Require Import SafeMap SyncMap.
-From TC.Proofs Require Import SafeMapProofs SyncMapProofs.
+From TC.Proofs Require Import SafeMapProofs SyncMapProofs SafeMapSkeleton.
+From TC.Gen Require Import LockSkeleton_gen.
 Import ListNotations.
 
 Section C07_SafeMap.
@@ -85,6 +86,41 @@ End C07_SyncMap.
 Theorem C07_lockset_sound (sk : skeleton) : lockset_check sk = true -> race_free sk.
 Proof. exact (lockset_sound sk). Qed.
 
+(* ---- the skeleton regenerated from storage/safeMap.go (Gen/LockSkeleton_gen.v) ---- *)
+
+(* No schedule of any number of goroutines calling SafeMap's methods — locks taken one by one, accesses to
+   SafeMap.m performed one at a time, RWMutex semantics — reaches a state in which two goroutines are about
+   to access m conflictingly (nor code the translator could not analyse). *)
+Theorem C07_safemap_race_free : race_free safemap_skeleton.
+Proof. exact safemap_race_free_proof. Qed.
+
+(* The generated skeleton has exactly the section structure of the concurrent model:
+   (1) every operation of the model has its method in the skeleton, and that method's sections are, in order,
+       sections holding exactly the lock "mux" in the mode, and touching only "m" with the may-write flag, that
+       [sections_of] declares for the model's steps (GetOrAdd: a read section, then a write section);
+   (2) the skeleton has no other methods;
+   (3) the model's steps respect the declaration: the i-th step of an invocation is its i-th declared
+       section, a section declared non-writing (= read-locked) leaves the shared state unchanged, and a step
+       that does not return moves on to the next declared section of the same operation. *)
+Theorem C07_skeleton_matches_model :
+  (forall K V D (o : SafeMap.op K V D), exists secs,
+      In (method_name o, secs) safemap_skeleton /\ map sec_shape secs = map Some (sections_of o))
+  /\ (forall name, In name (map fst safemap_skeleton) ->
+        exists o : SafeMap.op unit unit unit, name = method_name o)
+  /\ (forall K V D keqb zero (m : @SafeMap.smap K V) (l : SafeMap.local K V D),
+        exists md w, nth_error (sections_of (op_of_local l)) (section_index l) = Some (md, w)
+          /\ (w = false -> fst (@SafeMap.cstep K V D keqb zero m l) = m)
+          /\ (md = Rd <-> w = false)
+          /\ (forall l', snd (@SafeMap.cstep K V D keqb zero m l) = inl l' ->
+                op_of_local l' = op_of_local l /\ section_index l' = S (section_index l))).
+Proof.
+  split; [|split].
+  - intros K V D o. exact (skeleton_has_model_sections o).
+  - intros name Hin. apply skeleton_methods_in_model in Hin. unfold model_methods in Hin.
+    apply in_map_iff in Hin as (o & <- & _). now exists o.
+  - intros K V D keqb zero m l. exact (model_respects_sections keqb zero m l).
+Qed.
+
 (* ---- non-vacuity: the hypotheses are satisfiable, at a concrete and at an interface value type ---- *)
 Example zeqb_spec : forall x y : Z, reflect (x = y) (Z.eqb x y). Proof. exact Z.eqb_spec. Qed.
 (* V = int: never the nil any *)
@@ -116,3 +152,5 @@ Print Assumptions C07_getoradd_one_winner.
 Print Assumptions C07_syncmap_is_map.
 Print Assumptions C07_syncmap_linearizable.
 Print Assumptions C07_lockset_sound.
+Print Assumptions C07_safemap_race_free.
+Print Assumptions C07_skeleton_matches_model.
